@@ -130,8 +130,6 @@ def gen_method(r: apigen.Rng, idx: int):
         m = {"name": f"Op{idx}", "dep": None, "fields": [[n, num] for n, num in zip(names, numbers)]}
         pool = []
         for n in names:
-            if n == "vmap" and "val" not in names:
-                continue                  # a flattened map of an EXTERNAL value type loses its import (corpus: flattened_map_external_value)
             pool.append(n)
             for sp in SUB_PATHS.get(n, []):
                 # (the paths known to run into protobuf's assignment rules are kept rare: they are replayed from the corpus)
@@ -652,11 +650,6 @@ def shape_flags(codec, input_full, sigs, reserved, cross):
         if term in terms:
             flags.add("dup-param")
         terms.append(term)
-        if fd.message_type is not None and fd.message_type.GetOptions().map_entry:
-            vf = fd.message_type.fields_by_name["value"]
-            vt = vf.message_type or vf.enum_type
-            if vt is not None and vt.file.package != PKG:
-                flags.add("map-external-value")
     return flags
 
 
@@ -670,8 +663,6 @@ def classify(kind, flags, plan=None, msg=""):
         return "cross-package-reserved-name:generator-keyerror"
     if kind == "import-failed" and "dup-param" in flags and "duplicate argument" in msg:
         return "duplicate-parameter-name:syntaxerror"
-    if kind == "import-failed" and "map-external-value" in flags and "NameError" in msg and "_pb2' is not defined" in msg:
-        return "flattened-map-external-value:missing-import"
     if plan is not None:
         given, falsy = plan[0], plan[1]
         rawrep, rawmsg = plan[2] if len(plan) > 2 else ([], [])
@@ -839,11 +830,9 @@ def run_api(ctx, r, spec, label, plans=None, expect_flags=False):
         ctx.traces += 1
         if imp.get("errors"):
             msg = "; ".join(f"{e[1]}: {e[2]}" for e in imp["errors"][:2])
-            unmodelled_import = "NameError" in msg and any("map-external-value" in i["flags"] for i in info.values())
-            if not emit_bad and not unmodelled_import:      # (which modules a client imports is C01's: `emitCheck` does not model it)
+            if not emit_bad:
                 ctx.disagree("T3:c05.emit", f"emitted service module does not import ({msg}) but the model's emitCheck passes", payload0)
-            bad = [m for m in spec["methods"] if model_emit[m["name"]] != "ok"] or \
-                [m for m in spec["methods"] if unmodelled_import and "map-external-value" in info[m["name"]]["flags"]] or spec["methods"]
+            bad = [m for m in spec["methods"] if model_emit[m["name"]] != "ok"] or spec["methods"]
             ctx.fail(classify("import-failed", info[bad[0]["name"]]["flags"], msg=msg),
                      f"the emitted client module cannot be imported: {msg}", {"spec": {"methods": bad[:1]}})
             return
@@ -1030,8 +1019,6 @@ def run(ctx):
     ctx.assume("a signature path INTO a well-known type that proto-plus marshals to a python value (\"ttl.seconds\", \"ts.nanos\", "
                "\"wrapped.value\", \"meta.fields\") is not generated (it fails in both clients: the attribute is set on a temporary); "
                "paths into unmarshalled raw messages (FieldMask, google.rpc.Status, IAM Policy, Operation) ARE generated")
-    ctx.assume("which modules the emitted client imports is not modelled (C01): the one import failure that flattening itself causes "
-               "(map with an external value type) is replayed from the corpus as a known finding")
     r = ctx.rng("flatten")
     for name, blob in corpus_entries():
         run_api(ctx, ctx.rng("corpus", name), blob["spec"], f"corpus:{name}", plans=blob.get("plans"))
@@ -1085,5 +1072,5 @@ CLAIM = dict(
           'python-level type errors are outside the model (the generator keeps to one oneof member per method and treats well-known types as '
           'leaves). The kwargs==request oracle is not applied to default-valued arguments of dotted keys (presence of the parents is not fixed '
           'by the statement); sync==asyncio is. Requests from a proto sub-package of the API (proto-plus types with a different package tuple) '
-          'are not generated. Client-streaming methods (no flattened parameter at all) are modelled and checked by signature only. Eight known findings are listed in findings/C05.json and replayed from corpus/C05 on every run.'),
+          'are not generated. Client-streaming methods (no flattened parameter at all) are modelled and checked by signature only. Seven known findings are listed in findings/C05.json and replayed from corpus/C05 on every run.'),
 )
